@@ -118,7 +118,7 @@ func usesBuiltinMap(t types.Type) bool {
 	case *types.Interface, *types.Array, *types.Struct:
 		return false
 	}
-	panic(fmt.Sprintf("invalid map key type: %T", t))
+	panic(engineFault(fmt.Sprintf("invalid map key type: %T", t)))
 }
 
 func (x array) eq(t types.Type, _y interface{}) bool {
@@ -247,7 +247,7 @@ func equals(t types.Type, x, y value) bool {
 	// Since map, func and slice don't support comparison, this
 	// case is only reachable if one of x or y is literally nil
 	// (handled in eqnil) or via interface{} values.
-	panic(fmt.Sprintf("comparing uncomparable type %s", t))
+	panic(engineFault(fmt.Sprintf("comparing uncomparable type %s", t)))
 }
 
 // Returns an integer hash of x such that equals(x, y) => hash(x) == hash(y).
@@ -304,7 +304,7 @@ func hash(outer, t types.Type, x value) int {
 	case rtype:
 		return x.hash(t)
 	}
-	panic(fmt.Sprintf("unhashable type %v", outer))
+	panic(engineFault(fmt.Sprintf("unhashable type %v", outer)))
 }
 
 // reflect.Value struct values don't have a fixed shape, since the
